@@ -5,7 +5,9 @@ it, or of another render sharing the image cache) sees again.  Hand-written mirr
 A. `pdf/anchors.py::add_links` stores the annotation of every *kept* link on its box (`box.link_annotation = …`); the
    class default is `None` (`boxes.InlineBox.link_annotation`).  `draw_inline_level` then wraps the box in a `Link`
    marked-content sequence `if link_annotation:` and `pdfua` emits an `OBJR` to `box.link_annotation.reference`.
-   A link that `resolve_links` drops (its anchor is not in the page list) keeps whatever an earlier write stored.
+   Since 974ea74 `generate_pdf` first forgets the annotations of an earlier generation
+   (`for page in document.pages: for *_, box in page.links: box.link_annotation = None`, right after `resolve_links`):
+   a link that `resolve_links` drops (its anchor is not in the page list) no longer keeps what an earlier write stored.
 B. `images.py::RasterImage.get_x_object(interpolate, dpi_ratio)`: with `dpi_ratio == 1` the stored `image_data` is
    embedded under the original `width × height`; otherwise a thumbnail of `image_data` is computed **and assigned to
    `self.image_data`** (`cache_image_data(…)`, slot `source`: the cache entry is overwritten too).
@@ -42,8 +44,17 @@ def setAnnot (st : Annots) (box pdf : Nat) : Annots :=
 def kept (names : List String) (l : BoxLink) : Bool :=
   if l.kind = .internal then decide (l.target ∈ names) else true
 
+/-- `box.link_annotation = None` (the class default again; modelled as "no entry"). -/
+def clearAnnot (st : Annots) (box : Nat) : Annots := st.filter (fun e => e.1 ≠ box)
+
+/-- `for page in document.pages: for *_, box in page.links: box.link_annotation = None` — every link of the page list
+being written, whatever its kind, kept or dropped. -/
+def resetLinks : Annots → List BoxLink → Annots
+  | st, [] => st
+  | st, l :: rest => resetLinks (clearAnnot st l.box) rest
+
 /-- `add_links` over all pages of one `generate_pdf` (number `pdf`): only kept internal / external links get a new
-annotation; nothing is ever reset. -/
+annotation. -/
 def addLinks (pdf : Nat) (names : List String) : Annots → List BoxLink → Annots
   | st, [] => st
   | st, l :: rest =>
@@ -55,10 +66,17 @@ annotation belongs to. -/
 def tagged (st : Annots) (links : List BoxLink) : List (Nat × Nat) :=
   links.filterMap (fun l => (annotOf st l.box).map (fun pdf => (l.box, pdf)))
 
-/-- One `write_pdf` of a page list whose links are `links` and whose anchors are `names`. -/
+/-- One `write_pdf` of a page list whose links are `links` and whose anchors are `names`: reset, `add_links`, paint. -/
 def write (pdf : Nat) (names : List String) (links : List BoxLink) (st : Annots) : List (Nat × Nat) × Annots :=
-  let st' := addLinks pdf names st links
+  let st' := addLinks pdf names (resetLinks st links) links
   (tagged st' links, st')
+
+/-- A history of `write_pdf` calls (numbered from `pdf`) over boxes that persist — the same `Document` written again,
+copies sharing its pages: per write `(anchor names of its page list, links of its page list)`; the result is what each
+write tags. -/
+def runWrites : Nat → Annots → List (List String × List BoxLink) → List (List (Nat × Nat))
+  | _, _, [] => []
+  | pdf, st, w :: rest => (write pdf w.1 w.2 st).1 :: runWrites (pdf + 1) (write pdf w.1 w.2 st).2 rest
 
 /-! ### B. raster image data -/
 
